@@ -5,7 +5,7 @@
 From Coq Require Import String.
 From Coq Require Import List Ascii ZArith Bool.
 From CGV Require Import Base.PyBase Base.PyVal Base.NxGraph Dialect.DialectImpl Reader.ReaderImpl Reader.Grammar
-     Reader.ReaderCheck.
+     Reader.ReaderCheck Gen.ReaderEnumGen Reader.ReaderSmall.
 Import ListNotations.
 Open Scope Z_scope.
 
@@ -38,6 +38,15 @@ Proof.
   vm_compute. repeat split; discriminate.
 Qed.
 
+(** BOUNDED: every AST of the complete enumerated list [small_c04] (bound = the enumerator parameters
+    recorded in Gen/ReaderEnumGen.v and Reader/ReaderSmall.v) is in the grammar, and outside the three
+    defect classes the model returns exactly the denoted graph (same iteration orders) *)
+Theorem C04_small : forallb (fun a => wf fo_none a && c04_ok a) small_c04 = true.
+Proof. exact C04_small_list. Qed.
+Theorem C04_small_not_vacuous : (5000 <=? length (filter (fun a => Nat.eqb (class_C04 true a) 0) small_c04))%nat = true.
+Proof. exact C04_small_nonvacuous. Qed.
+
+Print Assumptions C04_small.
 Print Assumptions C04_refuted_double_close.
 Print Assumptions C04_refuted_pct_at_end.
 Print Assumptions C04_refuted_nodemult_sym.
